@@ -14,11 +14,11 @@ def run (line : String) : String :=
     | some p =>
       -- the fragment with the parser's line numbers kept (C13); forgetting them gives exactly
       -- `ofStmts` (theorem `Core.eraseP_ofStmtsL`)
-      match ofStmtsL 400 0 [] p.stmts with
+      match ofStmtsL 400 0 [] [] p.stmts with
       | none => result "MODEL-SKIP" "any"       -- outside the core fragment
       | some (ssL, nglobals, _) =>
         let ss := eraseP ssL
-        let code := compileP 0 0 ss
+        let code := compileP 0 0 [] ss
         -- the compiler's overflow check: an operand that does not fit its width is a compile error
         if !(code.all fitsI) then result "cerr" "eq cerr" else
         let pool := constsP ss
@@ -37,7 +37,7 @@ def run (line : String) : String :=
         -- the reference evaluation (specification): the final globals, or the line of the
         -- node whose operation fails (`failLine`; theorem `Props.C13.fail_line_program`)
         let spec := match evalP 20000 g0 ss with
-          | some g => s!"m code=* lines=* consts=* ok g=[{gsS g}] last=* sp=0"
+          | some (g, _) => s!"m code=* lines=* consts=* ok g=[{gsS g}] last=* sp=0"
           | none =>
             match failLineP 20000 g0 ssL with
             | some l => s!"m code=* lines=* consts=* rterr {l}"
@@ -52,18 +52,18 @@ def run2 (line : String) : String :=
   | [_, sx1, sx2] =>
     match readProgram sx1, readProgram sx2 (siteBase := 100000) with
     | some p1, some p2 =>
-      match ofStmts 400 0 [] p1.stmts with
+      match ofStmts 400 0 [] [] p1.stmts with
       | none => result "MODEL-SKIP" "any"
       | some (ss1, n1, vis1) =>
-        match ofStmts 400 n1 vis1 p2.stmts with
+        match ofStmts 400 n1 vis1 [] p2.stmts with
         | none => result "MODEL-SKIP" "any"
         | some (ss2, n2, _) =>
           let k := (constsP ss1).length
-          let code2 := compileP 0 k ss2
+          let code2 := compileP 0 k [] ss2
           let pool := constsP ss1 ++ constsP ss2
           let g0 : List Val := List.replicate n2 .null
           let gsS (g : List Val) : String := joinWith "," (g.map encVal)
-          match runMachine (compileP 0 0 ss1) pool 100000 ⟨0, [], g0⟩ with
+          match runMachine (compileP 0 0 [] ss1) pool 100000 ⟨0, [], g0⟩ with
           | none => result "line1 rterr" "any"
           | some st1 =>
             let codeS := natList (encode code2)
@@ -73,7 +73,7 @@ def run2 (line : String) : String :=
               | none => s!"code={codeS} consts=[{poolS}] rterr"
             -- specification: the one program line1 ++ line2
             let spec := match evalP 20000 g0 (ss1 ++ ss2) with
-              | some g => s!"m code=* consts=* ok g=[{gsS g}] last=* sp=0"
+              | some (g, _) => s!"m code=* consts=* ok g=[{gsS g}] last=* sp=0"
               | none => "any"
             result model spec
     | _, _ => result "MODEL-SKIP" "any"
